@@ -63,11 +63,11 @@ def check(ctx, cases):
 
 def run(ctx):
     thorough = ctx.tier == "thorough"
-    ctx.tlc("Config", {"Fault": "none", "EmitCases": False, "MaxSet": 2}, invariants=["RoundTrip", "StrongestWins"],
-            coverage=True)
-    ctx.require_actions(["ChooseCodec", "ChooseScenario", "Create", "Assign", "Parse"])
-    for fault, inv in (("kw_loses", "StrongestWins"), ("assign_ignored", "StrongestWins")):
-        ctx.tlc("Config", {"Fault": fault, "EmitCases": False, "MaxSet": 1}, invariants=["RoundTrip", "StrongestWins"],
+    invs = ["RoundTrip", "StrongestWins", "KeywordDoesNotStick"]
+    ctx.tlc("Config", {"Fault": "none", "EmitCases": False, "MaxSet": 2}, invariants=invs, coverage=True)
+    ctx.require_actions(["ChooseCodec", "ChooseScenario", "Create", "Assign", "Parse", "ParseAgain"])
+    for fault in ("kw_loses", "assign_ignored", "kw_sticks"):
+        ctx.tlc("Config", {"Fault": fault, "EmitCases": False, "MaxSet": 1}, invariants=invs,
                 expect_violation=fault, count=False)
     res = ctx.tlc("Config", {"Fault": "none", "EmitCases": True, "MaxSet": 2}, invariants=["EmitCodec", "EmitScn"],
                   workers=1, count=False)
@@ -112,7 +112,7 @@ def run(ctx):
     ctx.rule = ("codec: every assignment with 1 or 2 settings set (TLC-enumerated; pairs sampled 30% in quick) and seeded random "
                 "full assignments, through text / from_dict / from_kwargs, decompiled and read back; 10 unknown names x 3 entry "
                 "points; precedence: every scenario of spec/Config.tla (target x setting x value x channel x optional "
-                "conflicting value in a weaker channel) executed on a probe description chosen per setting together with its "
+                "conflicting value in a weaker channel x optionally a second keyword-less parse) executed on a probe description chosen per setting together with its "
                 "reference scenario; non-trivial = distinct case (for scenarios: the governing value changes the parse result "
                 "relative to the default)")
     ctx.assumptions += ["probe descriptions per setting (harness/impl.py C13_TEXTS) on which the setting is observable",
